@@ -175,6 +175,31 @@ pub fn targeted(seed: u64, tier: &str) -> Vec<Doc> {
         };
         v.push(Doc { class: format!("targeted-{}", i % 10), path: None, data: doc.into_bytes(), dpi: 96.0 });
     }
+    // one bounding-box definition used by an element WITHOUT a box (a horizontal or vertical line, a zero-size shape)
+    // and by ordinary elements, in every order: each conversion still gets an id of its own
+    let nz = (if tier == "thorough" { 400 } else { 60 }) * budget_mult();
+    for i in 0..nz {
+        let def = match i % 3 {
+            0 => r#"<mask id="zd"><rect width="200" height="200" fill="white"/></mask>"#,
+            1 => r#"<mask id="zd" maskContentUnits="objectBoundingBox"><rect width="1" height="1" fill="white"/></mask>"#,
+            _ => r#"<clipPath id="zd" clipPathUnits="objectBoundingBox"><rect width="1" height="1"/></clipPath>"#,
+        };
+        let attr = if i % 3 == 2 { r##"clip-path="url(#zd)""## } else { r##"mask="url(#zd)""## };
+        let flat = match rng.below(3) {
+            0 => format!(r#"<line x1="10" y1="{0}" x2="90" y2="{0}" stroke="black" stroke-width="4" {attr}/>"#, rng.range(10, 90)),
+            1 => format!(r#"<path d="M {0} 10 V 90" stroke="black" stroke-width="4" {attr}/>"#, rng.range(10, 90)),
+            _ => format!(r#"<g {attr}><line x1="10" y1="50" x2="90" y2="50" stroke="black" stroke-width="2"/></g>"#),
+        };
+        let normal = |rng: &mut Rng| format!(r#"<rect x="{}" y="{}" width="{}" height="{}" fill="green" {attr}/>"#, rng.range(0, 50), rng.range(0, 50), rng.range(5, 40), rng.range(5, 40));
+        let body = match (i / 3) % 4 {
+            0 => format!("{flat}{}", normal(&mut rng)),
+            1 => format!("{}{flat}", normal(&mut rng)),
+            2 => format!("{flat}{}{}", normal(&mut rng), normal(&mut rng)),
+            _ => format!("{}{flat}{}{flat}", normal(&mut rng), normal(&mut rng)),
+        };
+        let doc = format!(r#"<svg xmlns="http://www.w3.org/2000/svg" width="100" height="100"><defs>{def}</defs>{body}</svg>"#);
+        v.push(Doc { class: "shared-definition-with-a-boxless-user".into(), path: None, data: doc.into_bytes(), dpi: 96.0 });
+    }
     for f in std::fs::read_dir("/verif/findings/C05").into_iter().flatten().flatten() {
         if let Ok(data) = std::fs::read(f.path()) {
             v.insert(0, Doc { class: "past-failure".into(), path: None, data, dpi: 96.0 });
